@@ -38,7 +38,7 @@ TIMEOUTS = ['DEFAULT', 'DEFAULT', None, 0, -1, 1, 2.5, 100]
 def gen_case(seed, tier):
     rng = random.Random('%s/c19' % seed)
     params = {'TIMEOUT': rng.choice((300, 300, None, 5, 0, 2.5)), 'KEY_PREFIX': rng.choice(('', '', 'p', 'x:y')),
-              'VERSION': rng.choice((1, 1, 2)), 'SHARDS': rng.choice((1, 2, 8))}
+              'VERSION': rng.choice((1, 1, 2)), 'SHARDS': rng.choice((1, 2, 3, 5, 8, 13))}
     n = rng.choice((15, 40, 80)) if tier == 'quick' else rng.choice((30, 80, 150))
     prog = []
     for i in range(n):
